@@ -38,6 +38,9 @@ def main(argv=None):
     except ValueError:
         seed = 0
     try:
+        if args.tier == 'thorough':
+            # thorough: loop bodies of the generator are also followed three times where the path set stays enumerable
+            os.environ.setdefault('HIDVERIF_DEEP', '1')
         mod = importlib.import_module(f'hidverif.checks.{prop.lower()}')
         chk = Check(prop, args.tier, seed)
         repo = Repo()
